@@ -992,6 +992,35 @@ def flip_sdjwt_case(rows, k=3):
     return out
 
 
+def flip_jpt_case(rows, k=3):
+    out = []
+    for r in rows:
+        if r["out"].get("accept") is True and r["row"]["form"] == "presented" and r["row"]["concealed"]:
+            r = json.loads(json.dumps(r))
+            r["out"]["shown"] = r["out"]["shown"] + [r["row"]["concealed"][0]]      # claim a concealed attribute shows
+            out.append(r)
+            if len(out) >= k:
+                break
+    if not out:
+        raise ToolError("canary: no accepted presentation with a concealed attribute")
+    return out
+
+
+def extended_stage(chk, module, driver, tag, canary=None, workers=2, timeout=1200):
+    """A specification beyond the listed properties, run inside this property's plan: model-checked, replayed on the real
+    code, deviations reported as EXTENDED-SPEC DEVIATION (never as violations of this property). Its canary must not be able
+    to turn this property's verdict into a tool error, so a failing canary is recorded, not raised."""
+    r = chk.mc(module, "%s_%s.cfg" % (module, chk.tier), workers=workers, timeout=300, heap="2g")
+    chk.replay(r["cases_file"], tag=tag, prop_driver=driver, timeout=timeout, vacuity=False, extended=True)
+    if canary:
+        try:
+            chk.canary_cases(r["cases_file"], canary, prop_driver=driver)
+        except ToolError as e:
+            log("[%s] NOTE: canary of the extended specification %s not demonstrated on this tree: %s" % (chk.prop, module, e))
+            chk.extra.setdefault("extended_canary_not_demonstrated", []).append(module)
+    return r
+
+
 @plan("C16")
 def c16(chk):
     chk.rule = ("TLC enumerates (a) the credential table: signing key x kid (full / fragment / missing method) x nonce on either "
@@ -1006,6 +1035,8 @@ def c16(chk):
     r = chk.mc("SdJwtValidation", "SdJwtValidation_%s.cfg" % chk.tier, workers=4, timeout=600, heap="3g")
     chk.replay(r["cases_file"], timeout=3000)
     chk.canary_cases(r["cases_file"], flip_sdjwt_case)
+    # beyond the list: the other selective-disclosure format, JSON Proof Tokens with BBS+ (JptFlow.tla)
+    extended_stage(chk, "JptFlow", "JPT", ".jpt", canary=flip_jpt_case)
     chk.assumptions += ["sd-jwt-payload 0.2 (SdObjectEncoder/Decoder, SHA-256) trusted for disclosure hashing",
                         "the 'no latest bound' rows compare with the current time; iat is chosen decades away from any run"]
 
